@@ -30,6 +30,12 @@ def aircraft_lines(rng, with_position):
     return b"".join(b"*" + bytes(f).hex().encode() + b";\n" for f in fr)
 
 
+def asks_to_quit(data):
+    """does this burst of terminal input contain a quit request as the program reads it?  `q` with any modifier (ESC q is
+    Alt+q) and Ctrl-C on its own; ESC directly followed by Ctrl-C is Alt+Ctrl+C, which is not one"""
+    return b"q" in data or re.search(rb"(?<!\x1b)\x03", data) is not None
+
+
 def session(bindir, steps, tag, size=(24, 80), touch=False, filter_time=120, quit_at_end=True, scale=None):
     """steps: list of ("key", name) / ("keys", [names]) burst / ("mouse", kind, col, row) / ("raw", bytes) /
     ("resize", rows, cols) / ("arrive", with_position) / ("wait", seconds) / ("frame",)"""
@@ -52,12 +58,12 @@ def session(bindir, steps, tag, size=(24, 80), touch=False, filter_time=120, qui
             k = st[0]
             if k == "key":
                 rd.send(apps.KEYS[st[1]])
-                if st[1] in ("q", "CtrlC"):
+                if asks_to_quit(apps.KEYS[st[1]]):
                     quit_sent = 1
                 rd.wait_frames(n + 1, 2)
             elif k == "keys":
                 rd.send(b"".join(apps.KEYS[x] for x in st[1]))
-                if any(x in ("q", "CtrlC") for x in st[1]):
+                if asks_to_quit(b"".join(apps.KEYS[x] for x in st[1])):
                     quit_sent = 1
                 rd.wait_frames(n + 1, 2)
             elif k == "mouse":
@@ -65,7 +71,7 @@ def session(bindir, steps, tag, size=(24, 80), touch=False, filter_time=120, qui
                 rd.wait_frames(n + 1, 2)
             elif k == "raw":
                 rd.send(st[1])
-                if b"q" in st[1] or b"\x03" in st[1]:
+                if asks_to_quit(st[1]):
                     quit_sent = 1
                 rd.wait_frames(n + 1, 2)
             elif k == "resize":
